@@ -476,6 +476,32 @@ func gen(repo string) (map[string]string, error) {
 	}
 	fmt.Fprintf(&b, "/-- updateConfigMap: after a configuration change the node name -> node subnet cache is replaced by an empty map\n    (under nodeSubnetLock) by a deferred closure that reads the SAME variable `updated` the result of ensureIPAMConf is\n    stored in (an assignment, not a shadowing `:=`); false = the cache survives a reload -/\ndef reloadClearsNodeSubnetCache : Bool := %s\n\n", fg.LeanBool(outerVar && sameVar && clears))
 
+	// ---- ConfigurePool: the pool table and the cached records after a (re)configuration
+	cp, err := ip.Fn("crdIpam", "ConfigurePool")
+	if err != nil {
+		return nil, err
+	}
+	cptxt := norm(ip.Src(cp.Body))
+	// (a) pool.index is the position in the slice that becomes ci.FloatingIPs (NodeSubnetsByIPRanges looks pools up by index)
+	idxLoop := strings.Contains(cptxt, "for index, fipConf := range floatIPs {") && strings.Contains(cptxt, "fipConf.index = index")
+	tableAssigns := strings.Count(cptxt, "ci.FloatingIPs = ")
+	if !idxLoop || tableAssigns == 0 {
+		return nil, fmt.Errorf("%s: ConfigurePool: the loop assigning pool.index or the assignment of ci.FloatingIPs was not found", ipamFile)
+	}
+	sameSlice := tableAssigns == 1 && strings.Contains(cptxt, "ci.FloatingIPs = floatIPs") &&
+		!strings.Contains(cptxt, "floatIPs = append(") && !strings.Contains(cptxt, "floatIPs = floatIPs[")
+	fmt.Fprintf(&b, "/-- ConfigurePool: `pool.index` is the position in the sorted slice `floatIPs`, and exactly that slice (every pool, also\n    one without addresses) becomes `ci.FloatingIPs`, the table NodeSubnetsByIPRanges indexes -/\ndef poolIndexIsPositionInPoolTable : Bool := %s\n", fg.LeanBool(sameSlice))
+	// (b) every stored object is turned into a NEW record attached to the pool object of the NEW configuration
+	allocAssigns := strings.Count(cptxt, "tmpCacheAllocated[")
+	rebuilt := allocAssigns == 1 && strings.Contains(cptxt, "tmpFip := New(fipConf, netIP, ip.Spec.Key, &Attr{Policy: ip.Spec.Policy}, ip.Spec.UpdateTime.Time)") &&
+		strings.Contains(cptxt, "tmpCacheAllocated[ip.Name] = tmpFip") && strings.Contains(cptxt, "ci.allocatedFIPs = tmpCacheAllocated")
+	freeRebuilt := strings.Contains(cptxt, "tmpFip := New(fipConf, ip, \"\", &Attr{Policy: constant.ReleasePolicyPodDelete}, now)") &&
+		strings.Contains(cptxt, "ci.unallocatedFIPs = tmpCacheUnallocated")
+	if allocAssigns == 0 {
+		return nil, fmt.Errorf("%s: ConfigurePool no longer fills tmpCacheAllocated", ipamFile)
+	}
+	fmt.Fprintf(&b, "/-- ConfigurePool: every record of the allocated cache (and of the unallocated cache) is built anew with\n    `New(fipConf, …)`, i.e. attached to the pool object of the configuration being applied - no record of the previous\n    configuration (with its old pool pointer: mask, gateway, vlan, node subnets) survives a reload -/\ndef configurePoolRebuildsEveryRecord : Bool := %s\n\n", fg.LeanBool(rebuilt && freeRebuilt))
+
 	// ---- toFloatingIPInfo
 	ti, err := ip.Fn("crdIpam", "toFloatingIPInfo")
 	if err != nil {
